@@ -326,7 +326,7 @@ def decode_provenance(analysis: Analysis, enc_default):
             sclean = slab.replace("rstrip(", "")
             if not (slab.startswith("int(") and "split:" in slab and "data" in slab):
                 problems["header"].add(f"{name} is not int(<field {i} of the split line>) ({slab[:60]})")
-            elif any(tok in sclean[4:] for tok in ("strip(", "lower(", "abs(", "bool(", "binop:", "fstr:")):
+            elif any(tok in sclean[4:] for tok in ("strip(", "lower(", "abs(", "bool(", "binop:", "fstr:", "float(", "round(", "int(")):
                 problems["header"].add(f"{name} is transformed beyond int()")
     rows.append(("decode: the line is split once on the delimiter", not problems["split"], w_dec, "; ".join(sorted(problems["split"])) or "data.rstrip().split(delimiter)"))
     rows.append(("decode: payload is the last field, taken verbatim", not problems["payload"], w_dec, "; ".join(sorted(problems["payload"])) or "last element of the split line"))
